@@ -427,6 +427,15 @@ func execC04b(ctx *Ctx, in *Input) *Result {
 			}
 			seen[f.String()] = true
 			s, ok, ep := pr.Parse(toks)
+			// cross-check of two references: whatever the precedence reference groups is a sentence of the (ambiguous) grammar
+			rt := make([]int, len(toks))
+			for i, t := range toks {
+				rt[i] = sc.G.T(t.Term)
+			}
+			if sent, _ := sc.G.Recognise(rt); !sent {
+				res.Harness = fmt.Sprintf("references disagree: the expression generator produced [%s], which the Earley recogniser rejects for [%s]", feedStr(sc.Spec, toks), sc.Spec.Short())
+				return res
+			}
 			sc.Feeds = append(sc.Feeds, f)
 			expects[si] = append(expects[si], expect{ok, s, ep})
 		}
